@@ -421,6 +421,7 @@ func (m *Machine) violation(kind, msg, site string, extra *smt.Term) {
 	}
 	v.Inputs = vals
 	v.Sched = append([]int(nil), m.sched...)
+	v.SchedPos = append([]string(nil), m.schedPos...)
 	v.Trace = append([]string(nil), m.trace...)
 	var ds []string
 	for _, d := range m.decisions {
